@@ -247,6 +247,35 @@ def vendored_copies(rng, repo, pool, files, links, tagd):
         repo.do(["write", os.path.join(d, "own.rs"), rand_content(rng, pool)])
 
 
+def dir_to_sibling_symlink(rng, repo, pool, files, dirs):
+    """Replace a directory that holds files by a symbolic link to another directory that holds files of
+    the same names (legacy -> current).  git lists the old paths as deleted and the link as added; the
+    files behind the link are reachable under the old names but are not what git tracks there, and the
+    target directory's own files did not change.  Returns the replaced directory or None."""
+    cands = [d for d in dirs if any(os.path.dirname(f) == d for f in files)]
+    if repo.subdir:
+        cands = [d for d in cands if not (repo.subdir == d or repo.subdir.startswith(d + "/"))]
+    if not cands:
+        return None
+    d = rng.choice(cands)
+    inside = [f for f in files if os.path.dirname(f) == d]
+    others = [e for e in dirs if e != d and not e.startswith(d + "/") and not d.startswith(e + "/")
+              and not os.path.islink(repo.abs(e))]
+    if others and rng.random() < 0.6:
+        e = rng.choice(others)
+    else:
+        e = d + "-cur"
+        if os.path.lexists(repo.abs(e)):
+            return None
+    for f in rng.sample(inside, min(len(inside), rng.randint(1, 2))):
+        t = os.path.join(e, os.path.basename(f))
+        if not os.path.lexists(repo.abs(t)):
+            repo.do(["write", t, rand_content(rng, pool)])
+    repo.do(["rmtree", d])
+    repo.do(["symlink", d, os.path.relpath(repo.abs(e), os.path.dirname(repo.abs(d)))])
+    return d
+
+
 def mutate_worktree(rng, repo, pool, hist):
     """One random work-tree operation (adds, edits, deletions, renames, chmod, swaps, symlinks)."""
     files, links, dirs = repo.walk()
@@ -259,6 +288,10 @@ def mutate_worktree(rng, repo, pool, hist):
 
     if rng.random() < 0.07:
         vendored_copies(rng, repo, pool, files, links, tagd)
+        return
+    if dirs and rng.random() < 0.05:
+        if dir_to_sibling_symlink(rng, repo, pool, files, dirs):
+            tagd("dir->symlink-to-sibling-dir")
         return
     if files and rng.random() < 0.08:
         # give a file the sibling its rule asks for, or take a sibling away
@@ -454,11 +487,17 @@ def index_state(rng, repo, hist):
         elif r < 0.74 and tfiles:
             repo.do(["write", rng.choice(tfiles), rand_content(rng, pool)])
             tagd("unstaged-edit")
-        elif r < 0.80:
+        elif r < 0.77:
             p = free_path(rng, repo)
             if p:
                 repo.do(["write", p, rand_content(rng, pool)])
                 tagd("untracked")
+        elif r < 0.80:
+            p = free_path(rng, repo)
+            if p:
+                repo.do(["write", p, rand_content(rng, pool)])
+                repo.do(["git", "add", "-N", "--", p])       # intent-to-add: announced, nothing staged
+                tagd("intent-to-add")
         elif r < 0.86 and tfiles:
             p = rng.choice(tfiles)
             repo.do(["git", "update-index", "--chmod=" + rng.choice(["+x", "-x"]), "--", p])
@@ -470,6 +509,11 @@ def index_state(rng, repo, hist):
                 repo.do(["symlink", p, os.path.relpath(repo.abs(t), os.path.dirname(repo.abs(p)))])
                 repo.do(["git", "add", "--", p])
                 tagd("staged-symlink")
+        elif r < 0.935 and dirs:
+            d = dir_to_sibling_symlink(rng, repo, pool, tfiles, dirs)
+            if d:
+                repo.do(["git", "add", "-A", "--", d])          # the replacement exists in the index only
+                tagd("staged-dir->symlink-to-sibling-dir")
         elif r < 0.96 and tfiles:
             q = free_path(rng, repo)
             if q:
@@ -544,6 +588,9 @@ def flat(root, prefix=b""):
 def read_index(repo):
     """[(path bytes, kind b|x|l|c, oid)] for stage-0 entries"""
     rc, out = repo.git("ls-files", "-s", "-z")
+    # intent-to-add entries (git add -N) are the only ones the index-vs-work-tree diff shows as added
+    rc, ita = repo.git("diff", "--name-only", "--diff-filter=A", "--no-renames", "-z")
+    ita = {x for x in ita.split(b"\0") if x}
     res = []
     for rec in out.split(b"\0"):
         if not rec:
@@ -551,6 +598,8 @@ def read_index(repo):
         meta, path = rec.split(b"\t", 1)
         mode, oid, stage = meta.split(b" ")
         kind = {b"120000": "l", b"160000": "c", b"100755": "x"}.get(mode, "b")
+        if path in ita and kind in "bx":
+            kind = "i"
         res.append((path, kind, oid.decode(), int(stage)))
     return res
 
@@ -560,6 +609,8 @@ def index_wire(idx):
     for (p, k, oid, _st) in idx:
         if k in "bx":
             toks.append("b:%s:%s:%s" % ("1" if k == "x" else "0", hx(p), hx(oid)))
+        elif k == "i":
+            toks.append("i:%s" % hx(p))
         else:
             toks.append("%s:%s:%s" % (k, hx(p), hx(oid)))
     return " ".join(toks) or "-"
